@@ -9,6 +9,10 @@ CLAIMED = {
          "Seeded deterministic simulation of k-hop transfers between knowing processes (real protobuf bytes, duplication, delay/reorder, fan-out); per-delivery invariant: visible tree shape and Error() at every node equal the origin's; history check: wire bytes are a fixpoint from the 2nd message on. Sampling, not proof.",
          "5/C01", "trusted: Go runtime, gogo/protobuf, the harness's tree walker; bounds depth<=7, <=24 nodes, <=8 hops",
          "deterministic simulation: seeded cluster/transport simulator with per-delivery invariants and shrinking replay tape"),
+ "C04": ("exploration",
+         "Seeded deterministic simulation of routes O -> U_1..U_m -> K where every intermediary has its own drawn subset of known types (registry sets installed by hook H1), plus a direct control route; per-delivery invariants at every unknowing process (text and shape per node, type names/marks, safe details of opaque layers, verbatim re-encoding of unknown wire nodes, whole-message equality when nothing is known); history check: the final knowing process observes exactly what the control observes (tree, Is row, accessors, stacks, %v, %+v). Sampling, not proof.",
+         "5/C04", "trusted: hook H1 models 'does not know a type' as absence of its registry entries (DESIGN.md 8.3); known findings listed in known_findings.json are not re-reported",
+         "deterministic simulation: per-process type registries, seeded knowledge subsets and routes, per-delivery invariants + control-route history comparison"),
 }
 
 NOT_APPLICABLE = {
